@@ -262,8 +262,10 @@ PROPS = {
     "C19": dict(
         module="OrbitModel.Properties.C19",
         theorems=["Orbit.C19.never_regresses", "Orbit.C19.progress_le_max", "Orbit.C19.at_rest_equals_len",
-                  "Orbit.C19.pinned_tree_max_regresses", "Orbit.C19.tied_to_go_text", "Orbit.C19.status_raised_with_the_append_tied_to_go_text", "Orbit.C19.foreign_heads_are_not_counted", "Orbit.C19.foreign_head_was_counted_before_the_fix"],
-        families=[("status", 80, 2500, 8), ("kv", 40, 1000, 14), ("routes", 40, 1000, 12)],
+                  "Orbit.C19.pinned_tree_max_regresses", "Orbit.C19.tied_to_go_text", "Orbit.C19.status_raised_with_the_append_tied_to_go_text", "Orbit.C19.foreign_heads_are_not_counted", "Orbit.C19.foreign_head_was_counted_before_the_fix",
+                  "Orbit.C19.clock_times_le_entry_count", "Orbit.C19.at_rest_after_snapshot_load",
+                  "Orbit.C19.snapshot_load_counted_unmerged_records_before_the_fix", "Orbit.C19.snapshot_load_order_tied_to_go_text"],
+        families=[("status", 80, 2500, 8), ("kv", 40, 1000, 14), ("routes", 40, 1000, 12), ("snapshot", 40, 1000, 10)],
         corr_fields={"status", "len", "rev"},
         nontrivial=nt_any3,
         rule="mid-flight sampling: several writers' branches announced one by one to an observer while some fetches are held at a gate, observed after every step; plus status sampled after every step at quiescence on every replica of single- and multi-writer histories: never decreases; at rest with a complete log progress = max within [max Lamport time, entry count]",
@@ -337,8 +339,8 @@ MANIFEST_TEXT = {
         note="Partial where the truth is in the runtime: real libp2p pubsub/bitswap timing is replaced by scripted transports. The per-action guarantees (Valid: cached heads cover the log; a fully accepted message adds the ancestry of its heads) are proved at the store level / checked by correspondence; rejected entries and cancellations are C10/C11.",
         technique="Lean 4 proof (invariants Covers/AckedSomewhere + final-phase delivery argument over a message-soup transition system) with differential correspondence on fault scripts"),
     "C19": dict(
-        text="Kernel-checked theorems about the status arithmetic regenerated from the Go text on every run: progress and maximum never decrease between any two moments for any event sequence, progress <= maximum always, and at rest with a complete log of n entries both equal n; the pinned tree's regression (F15) is refuted by a decide-checked witness and was reproduced on the real store before the fix: commit. The harness samples status mid-flight (held fetches) and at quiescence and evaluates monotonicity and the at-rest bounds on the implementation.",
-        note="Trusted: Lean kernel + standard axioms; the go/ast extractor (extract/main.go) that regenerates Generated/Gen.lean; which events fire and with which arguments is modelled by hand and validated by correspondence; 'Lamport times of a complete log never exceed its size' is a hypothesis of the at-rest theorem (checked on every observation by the harness).",
+        text="Kernel-checked theorems about the status arithmetic regenerated from the Go text on every run: progress and maximum never decrease between any two moments for any event sequence, progress <= maximum always, and at rest with a complete log of n entries both equal n; the pinned tree's regression (F15) is refuted by a decide-checked witness and was reproduced on the real store before the fix: commit. In a complete log of honestly clocked entries no Lamport time exceeds the entry count (proved for every log shape), so a fresh store that loaded a snapshot stands at n/n; before the fix: commit F23 the loader counted records its heads do not cover (snapshot written while the log grew) and stood at 3/4 (decide-checked witness, replayed on the real store). The harness samples status mid-flight (held fetches), at quiescence and after snapshot loads (racing saves, resumed replication queues) and evaluates monotonicity and the at-rest bounds on the implementation.",
+        note="Trusted: Lean kernel + standard axioms; the go/ast extractor (extract/main.go) that regenerates Generated/Gen.lean; which events fire and with which arguments is modelled by hand and validated by correspondence; 'Lamport times of a complete log never exceed its size' is proved from ClockTight (every entry is exactly one tick above one of the entries it names, which is how go-ipfs-log clocks an append; a permitted writer that forges clock times is outside it) and checked on every observation by the harness.",
         technique="Lean 4 proof over arithmetic regenerated from the Go source (translator) + differential correspondence with mid-flight sampling"),
     "C06": dict(
         text="Kernel-checked theorems: for every history of a replica (any interleaving of local appends and merged batches) the index produced by the real UpdateIndex loop (newest-to-oldest scan with a handled set over a map that is never cleared) is equivalent to the last-writer-wins replay of the current listing; entries seen by a writer are listed before its update; the later update wins; under concurrent updates of the view (every number of updaters, every schedule) the view reflects the whole log once all have returned, because the log is copied under the index lock (finding F19, repaired: the copy used to be taken before the lock, witness decide-checked and replayed with a hook). Tied to the code by replaying every Put/Delete/Sync through the model and by checking All() = lwwReplay(Values()) on the implementation after every step on every replica.",
